@@ -536,6 +536,17 @@ class C10(Driver):
         fields, weights, extents = self.parsed(name)
         _, _, oextents = self.parsed(other)
         n = len(data)
+        pegdata = [f for f in fields if f.role == "peg.rule" and f.ctx.get("data")]
+        if pegdata and r.random() < 0.5:
+            # every rule reference of a PEG, pointed at every run of data words (literal bytes, set bitmaps): the
+            # verifier must refuse each - whatever kind of rule holds the reference
+            cases = []
+            for f in pegdata:
+                for j, d in enumerate(f.ctx["data"]):
+                    cases.append({"k": "field", "b": 0, "lk": 1 if dct else j & 1, "mask": ALL_MASK, "aseed": (f.off + j) % 997,
+                                  "p": [[f.off, f.size, img.enc_int(d).hex()]], "d": "%s@%d:%r -> data word %d" % (f.role, f.off, f.val, d)})
+            r.shuffle(cases)
+            return {"property": "C10", "leg": "unmarshal", "bases": [name], "cases": cases[:300], "knobs": knobs, "sweep": 1}
         hot = [f for f in fields if img.is_hot(f)]
         if hot and r.random() < 0.4:
             return self.gen_sweep(r, knobs, scale, name, data, dct, hot)
